@@ -31,6 +31,16 @@ def _(c):
     c.req("grid_number_nonneg", 'self.options["search_grid_number"] >= 0')
     c.req("D_pos", "self.D >= 1")
     c.req("forcing_nonneg", "self.sufficient_improvement >= 0", props=["C13", "C04", "C03"])
+    NOFORCE = "not truthy(self.options['force_poll_mesh'])"
+    # the displacement vectors are mesh_size x direction x poll_scale (the scaling by which poll_mads_2n divided)
+    c.cut("vv = B_new * self.optim_state['mesh_size'] * gp.temporary_data['poll_scale']", "lemma", None, {
+        "c14_displacement_is_mesh_times_direction": "rows(vv) == 2 * self.D and forall(2 * self.D, self.D, lambda i, j: "
+        "vv[i][j] == B_new[i][j] * self.optim_state['mesh_size'] * gp.temporary_data['poll_scale'][j])"}, props=["C14"],
+        top=("c14_displacement_is_mesh_times_direction",))
+    c.hook("vv = (B_new * self.optim_state['mesh_size']) * gp.temporary_data['poll_scale']", {"ghost.V": "vv"})
+    c.cut("u_new = u_poll[index_acq]", "lemma", None, {
+        "c14_polled_point_is_a_row_of_the_poll_set": "forall(self.D, lambda j: u_new[j] == u_poll[index_acq][j])"}, props=["C14"],
+        top=("c14_polled_point_is_a_row_of_the_poll_set",))
     c.loop(0, invariants={
         "c13_good_iff": "iff(certain_good_poll, poll_best_improvement > self.sufficient_improvement)",
         "c13_best_is_gap": "poll_best_improvement == self.fval - f_poll_best and poll_best_improvement >= 0",
